@@ -97,6 +97,38 @@ void go(Rng& rng)
         }
 }
 
+// compound assignment on scaled nests with non-zero exponents: `a op= b` is `a = static_cast<A>(a op b)`,
+// the conversion back to a's type rescales (truncating toward zero)
+template<class A, class B>
+void goe(Rng& rng)
+{
+    using TA = inner_t<A>;
+    using TB = inner_t<B>;
+    std::vector<TA> lv;
+    std::vector<TB> rv;
+    if constexpr (sizeof(TA) == 1 && sizeof(TB) == 1) {
+        lv = all_vals<TA>();
+        rv = all_vals<TB>();
+    } else {
+        lv = vals<TA>(rng, 8 * scale_from_env(), sizeof(TA) > 4 ? 13 : 6);
+        rv = vals<TB>(rng, 8 * scale_from_env(), sizeof(TB) > 4 ? 13 : 6);
+    }
+    for (TA l : lv)
+        for (TB r : rv) {
+            A a = mk<A>(l);
+            B b = mk<B>(r);
+#define ASGE(NAME, STMT) \
+    { \
+        HEAD2("asge", NAME) VH_RUN(([&] { A c = a; STMT; return c; }()), print_num) \
+    }
+            ASGE("add", c += b)
+            ASGE("sub", c -= b)
+            ASGE("mul", c *= b)
+            ASGE("div", c /= b)
+            ASGE("mod", c %= b)
+        }
+}
+
 // ++ / -- : new value of the operand and the value the expression returns
 template<class A>
 void incdec(Rng& rng)
